@@ -24,6 +24,7 @@ Tree(id) ==
     [] id = "wide3"  -> {Fi(<<>>, "a"), Fi(<<>>, "b")}
     [] id = "alias4" -> {Fi(<<>>, "a"), Di(<<>>, "b"), Fi(<<"b">>, "a")}
     [] id = "mix4"   -> {Di(<<>>, "a"), Fi(<<"a">>, "b"), Fi(<<>>, "b")}
+    [] id = "io4"    -> {Di(<<>>, "a"), Fi(<<"a">>, "b"), Fi(<<>>, "b")}   \* inner import vs outer declaration
     [] id = "pkgdir" -> {Di(<<>>, "pkg"), Fi(<<>>, "a")}
     [] id = "dir3"   -> {Di(<<>>, "a"), Di(<<"a">>, "a")}
     [] id = "full6"  -> {Di(<<>>, "a"), Fi(<<"a">>, "a"), Fi(<<"a">>, "b"), Di(<<>>, "b"), Fi(<<"b">>, "a")}
@@ -63,6 +64,8 @@ ResBases ==
      \* bigger trees: items nearly everywhere (many same-named candidates) or nearly nowhere
      /\ IF IsChainTree(b.tree)
         THEN b.P \subseteq {<<>>, <<"b">>, <<"a", "b">>, <<"c", "a", "b">>} /\ b.site \in {<<>>, <<"b">>, <<"c">>}
+        ELSE IF b.tree = "io4"
+        THEN b.P \in {Modules(b.files), Modules(b.files) \ {b.site}, {b.site}}
         ELSE \/ Cardinality(Modules(b.files)) <= 4
              \/ Cardinality(b.P) <= 1
              \/ Cardinality(b.P) >= Cardinality(Modules(b.files)) - 2}
@@ -180,13 +183,26 @@ FamChain3(b) ==
   \cup {Pr("chain2:YZ", <<Imp(sc, <<"b", "f">>, 0), Imp(sc, <<"pkg", "c", "a", "b">>, 0)>>, {}, 3, rf) :
       sc \in {M(b.site), B(1), B(2)}, rf \in {<<"f">>, <<"b", "f">>}}
 
+(* an import in an inner scope against a same-named DECLARATION further out: module-level fn f / fn g / *)
+(* const k / child module of the site, or a `let` / parameter of an outer block. Import at module level, *)
+(* function body (B(1)) or a nested block (B(2), B(3)); the local at every level (outside the import's    *)
+(* scope: the import wins; in it or further in: the local wins). References f(), g(), k and b.f().        *)
+Ln(i, n, param) == [i |-> i, n |-> n, param |-> param]
+IoLocals(n) == {{}} \cup {{Ln(1, n, TRUE)}, {Ln(1, n, FALSE)}, {Ln(2, n, FALSE)}, {Ln(3, n, FALSE)}}
+IoLevels(b) == {<<M(b.site), 1>>, <<M(b.site), 3>>, <<B(1), 1>>, <<B(1), 3>>, <<B(2), 2>>, <<B(2), 3>>, <<B(3), 3>>}
+FamInOut(b) ==
+  UNION {{Pr("inout", <<Imp(lp[1], Abs(Append(m, n)), 0)>>, ls, lp[2], <<n>>) :
+            m \in Modules(b.files) \ {b.site}, lp \in IoLevels(b), ls \in IoLocals(n)} : n \in {"f", "g", "k"}}
+  \cup UNION {{Pr("inout", <<Imp(lp[1], Abs(x), 0)>>, ls, lp[2], <<Last(x), "f">>) :
+                 lp \in IoLevels(b), ls \in IoLocals(Last(x))} : x \in Modules(b.files) \ {<<>>, b.site}}
+
 FamDisc(b) ==
   {Pr("disc", <<>>, {}, 1, Abs(Append(mp, "f"))) : mp \in FileMods(b.files) \cup {<<>>}}
 
 Fam(f, b) ==
   CASE f = "path" -> FamPath(b) [] f = "imp1" -> FamImp1(b) [] f = "list" -> FamList(b)
     [] f = "modimp" -> FamModImp(b) [] f = "chain" -> FamChain(b) [] f = "shadow" -> FamShadow(b)
-    [] f = "two" -> FamTwo(b) [] f = "other" -> FamOther(b) [] f = "chain3" -> FamChain3(b)
+    [] f = "two" -> FamTwo(b) [] f = "other" -> FamOther(b) [] f = "chain3" -> FamChain3(b) [] f = "inout" -> FamInOut(b)
 
 Probes(b) == IF b.tree = "disc" THEN FamDisc(b) ELSE UNION {Fam(f, b) : f \in Families}
 
@@ -204,7 +220,7 @@ Case(b, pr) ==
   IN  [fam |-> pr.fam, tree |-> b.tree, files |-> c.files, mods |-> c.mods, items |-> c.items,
        site |-> c.site, imps |-> c.imps, locals |-> c.locals, depth |-> c.depth, ref |-> c.ref,
        exp |-> e, alts |-> IF e.k = "unspec" \/ (a.super = e /\ a.seq = e /\ a.pkg = e /\ a.impl = e) THEN <<>> ELSE <<a>>,
-       exports |-> Exports(c), rule |-> Rule(c), outer |-> OuterNamesakes(c)]
+       exports |-> Exports(c), rule |-> Rule(c), outer |-> OuterNamesakes(c), ivo |-> InnerVsOuter(c)]
 
 Emit == (probe.fam # "none") => PrintT(<<"REPLAY", ToJson(Case(base, probe))>>)
 =============================================================================
